@@ -116,11 +116,13 @@ def ladder(symbol, charge):
 def ladder_judge(symbol, charge, radical, neighbours, h):
     """None = not judged; True/False = the state (bond sum + h) is / is not the lowest ladder state reachable by adding hydrogens.
     neighbours: (order, symbol-or-number) pairs; only judged when the library reports a state at all."""
-    if radical or h is None:
+    if h is None:
         return None
     lad = ladder(symbol, charge)
     if lad is None:
         return None
+    if radical:   # the unpaired electron takes one valence
+        lad = [v - 1 for v in lad if v >= 1]
     total = sum(o for o, _ in neighbours)
     if (symbol, charge, total, h) in LADDER_REVIEWED:
         return None
